@@ -161,6 +161,24 @@ def _fresh_expr(e: ast.expr, fresh, repo: Repo, at: ast.AST | None = None) -> bo
     return False
 
 
+def _numeric_name(fi, fresh: "Fresh", name: str) -> bool:
+    """Every binding of the local name in this function is visibly a number (``n -= 1`` then rebinds, it does not mutate)."""
+    a = fi.node.args
+    for p in a.posonlyargs + a.args + a.kwonlyargs:
+        if p.arg == name:
+            return p.annotation is not None and ast.unparse(p.annotation).replace(" ", "") in ("int", "float", "bool", "int|None")
+    vals = fresh.bindings_in(fi.node, name)
+    if not vals:
+        return False
+    for v in vals:
+        if isinstance(v, ast.Constant) and isinstance(v.value, (int, float)) and not isinstance(v.value, bool):
+            continue
+        if isinstance(v, ast.Call) and isinstance(v.func, ast.Name) and v.func.id in ("len", "int", "min", "max", "sum", "abs"):
+            continue
+        return False
+    return True
+
+
 def frame_obligations(repo: Repo) -> list[OblResult]:
     out = []
     for fi in repo.all_functions():
@@ -200,9 +218,9 @@ def frame_obligations(repo: Repo) -> list[OblResult]:
                                 site = None
                     if isinstance(st, ast.AugAssign) and isinstance(t, ast.Name):
                         # x |= y on a set mutates in place; on a frozenset/int it rebinds
-                        if t.id in frozen_names or isinstance(st.op, (ast.Add, ast.Sub, ast.Mult)) and t.id not in fresh and False:
-                            continue
-                        if isinstance(st.op, (ast.BitOr, ast.BitAnd, ast.Sub, ast.BitXor)) and t.id not in frozen_names and not fresh.fresh_at(t.id, st):
+                        if t.id in frozen_names or _numeric_name(fi, fresh, t.id):
+                            continue  # rebinding (frozenset / number), not mutation
+                        if isinstance(st.op, (ast.BitOr, ast.BitAnd, ast.Sub, ast.BitXor)) and not fresh.fresh_at(t.id, st):
                             out.append(_o(f"frame/{fi.key}:L{st.lineno}", False, f"{fi.key} line {st.lineno}: in-place operator on '{t.id}', which is not known to be allocated in this call", st.lineno, fi.key))
                 if site is None:
                     continue
